@@ -139,6 +139,8 @@ fn large_batches_with_one_faucet_twice(run: &Run, thorough: bool) {
 
 pub fn run(run: &Run) {
     let thorough = run.thorough();
+    // one faucet twice in one batch with apply_tx_batch itself under loom (every parallel site, every cut, every interleaving)
+    crate::loomrun::stf_interleavings(run, "C19", &["faucet-twice", "faucet-spends-and-rival"]);
     let nets = [NetID::Mainnet, NetID::Testnet, NetID::Custom02, NetID::Custom03, NetID::Custom04, NetID::Custom05, NetID::Custom06, NetID::Custom07, NetID::Custom08];
     let depth = if thorough { 11 } else { 9 };
     for net in nets {
